@@ -21,7 +21,7 @@ def fixtures():
 PAIR_CLASSES = ["related", "related", "related", "related", "unrelated", "fixture_mut", "sim_straddle",
                 "short_sources", "base64", "pointer_only", "mime_keys", "output_kinds", "attachments",
                 "meta_types", "separators", "move_dup", "identical", "minor_change", "line_endings", "diff_lookalike", "long_repetitive",
-                "large_outputs"]
+                "large_outputs", "entry_lookalike_json"]
 
 
 def big_text(r, kind="html", size=None):
@@ -313,6 +313,42 @@ def nb_pair(gen, cls=None, minor=None):
                 bc["outputs"].append(copy.deepcopy(o))
             elif what == "cell_source":
                 bc["source"] = bc["source"] + "df.head()\n"
+    elif cls == "entry_lookalike_json":
+        # notebook CONTENT (metadata, application/json outputs) made of objects that look like nbdime's own diff entries
+        # and merge decisions: a change log, an undo stack, a saved diff
+        def entry():
+            op = r.choice(["add", "remove", "replace", "addrange", "removerange", "patch"])
+            e = {"op": op, "key": r.choice(["threshold", 0, 3, "cells"])}
+            if op in ("add", "replace"):
+                e["value"] = r.choice([0.7, "v", [1], {"k": 1}])
+            elif op == "addrange":
+                e["valuelist"] = r.choice([["a", "b"], "text"])
+            elif op == "removerange":
+                e["length"] = r.randrange(1, 4)
+            elif op == "patch":
+                e["diff"] = [{"op": "replace", "key": "x", "value": 1, "why": "nested"}]
+            if r.random() < 0.8:
+                e.update({"author": r.choice(["kim", "lee"]), "at": "2024-0%d-01" % r.randrange(1, 9)})
+            return e
+        log = [entry() for _ in range(r.randrange(1, 4))]
+        dec = {"common_path": ["cells", 0], "action": "local", "conflict": False, "local_diff": [entry()], "remote_diff": None, "note": "saved"}
+        tgt = r.choice(["nb_meta", "cell_meta", "output"])
+        if tgt == "nb_meta" or not a["cells"]:
+            a["metadata"]["changelog"] = log[:1]
+        elif tgt == "cell_meta":
+            a["cells"][0]["metadata"]["undo"] = log[:1]
+        else:
+            a["cells"].insert(0, _code_cell(gen, m, "history()", [{"output_type": "display_data", "metadata": {}, "data": {"application/json": log[:1], "text/plain": "<log>"}}]))
+        b = copy.deepcopy(a)
+        if tgt == "nb_meta" or not a["cells"]:
+            b["metadata"]["changelog"] = log + ([dec] if r.random() < 0.5 else [])
+            b["metadata"]["last"] = entry()
+        elif tgt == "cell_meta":
+            b["cells"][0]["metadata"]["undo"] = log + [dec]
+        else:
+            b["cells"][0]["outputs"][0]["data"]["application/json"] = log + [entry()]
+            b["cells"][0]["outputs"].append({"output_type": "display_data", "metadata": {"saved": entry()}, "data": {"application/json": dec}})
+        rec.append(tgt)
     elif cls == "diff_lookalike":
         look = ["\\ No newline at end of file", "--- before", "+++ after", "@@ -1,3 +1,3 @@", "-removed", "+added", " context",
                 "diff --git a/before b/after", "index 000..111 100644", "<<<<<<< not a real marker", "text"]
@@ -371,7 +407,7 @@ TRIPLE_CLASSES = ["random", "random", "random", "del_vs_edit", "del_vs_edit", "i
                   "minor_diff", "retype", "empty_source", "both_append_outputs", "exec_count", "fixture",
                   "nbmeta_conflict", "out_meta_conflict", "multi_line_meta", "del_vs_transient", "del_vs_transient",
                   "both_insert_lists", "nul_in_source", "same_insert_edit_below", "transient_meta_conflict",
-                  "del_vs_output_edit", "large_outputs", "long_notebook", "wide_metadata", "both_rerun", "both_rerun", "same_size_sides", "repeated_content", "same_frame_insert"]
+                  "del_vs_output_edit", "large_outputs", "long_notebook", "wide_metadata", "both_rerun", "both_rerun", "same_size_sides", "repeated_content", "same_frame_insert", "cr_progress", "both_reid"]
 
 
 def merge_triple(gen, cls=None, minor=None, plain_eol=False):
@@ -782,6 +818,47 @@ def merge_triple(gen, cls=None, minor=None, plain_eol=False):
         loc["cells"][pos]["source"] = "\n".join(ll) + fin
         rem["cells"][pos]["source"] = "\n".join(rl) + fin
         info = {"pos": pos, "line": j, "frame": frame}
+    elif cls == "cr_progress":
+        # text without any LF but with other separators Python's splitlines knows (a progress bar redrawn with bare CR,
+        # form feeds, U+2028): both sides re-ran / edited it differently, in a stream, a metadata string or a source
+        sep = r.choice(["\r", "\r", "\x0c", "\u2028", "\x0b"])
+        def bar(n, tag=""):
+            return sep.join("%3d%%|%s| %d/100%s" % (p_, "#" * (p_ // 20), p_, tag) for p_ in range(0, n + 1, 25))
+        where = r.choice(["stream", "stream", "metadata", "source"])
+        c = _code_cell(gen, m, "for i in tqdm(range(100)): step(i)\n", [{"output_type": "stream", "name": "stderr", "text": bar(100)}])
+        c["execution_count"] = 1
+        pos = r.randrange(len(base["cells"]) + 1)
+        for nb in (base, loc, rem):
+            nb["cells"].insert(pos, copy.deepcopy(c))
+        lv, rv = bar(100, " L"), (bar(75) + sep + "done" if r.random() < 0.5 else bar(100, " R"))
+        for nb, v in ((loc, lv), (rem, rv)):
+            cc = nb["cells"][pos]
+            if where == "stream":
+                cc["outputs"][0]["text"] = v
+            elif where == "metadata":
+                cc["metadata"]["progress"] = v
+            else:
+                cc["source"] = v
+        if where == "metadata":
+            base["cells"][pos]["metadata"]["progress"] = bar(100)
+        elif where == "source":
+            base["cells"][pos]["source"] = bar(100)
+        info = {"pos": pos, "where": where, "sep": repr(sep)}
+    elif cls == "both_reid" and m >= 5:
+        # both branches gave the SAME (otherwise aligned) cells new ids - a tool that regenerates ids on save
+        ks = r.sample(range(len(base["cells"])), min(len(base["cells"]), r.choice([1, 1, 2])))
+        for k_ in ks:
+            loc["cells"][k_]["id"] = gen.new_id()
+            rem["cells"][k_]["id"] = gen.new_id() if r.random() < 0.85 else loc["cells"][k_]["id"]
+        if r.random() < 0.5:
+            tmp_ = {"nbformat": 4, "nbformat_minor": m, "metadata": {}, "cells": [loc["cells"][ks[0]]]}
+            mutate_once(tmp_, gen, r.choice(["edit_source", "cell_meta"]))
+        info = {"cells": ks}
+    elif cls == "both_reid":
+        cls = "random"
+        loc, r1 = mutate(base, gen, steps=2)
+        rem, r2 = mutate(base, gen, steps=2)
+        info = {"local": r1, "remote": r2}
     elif cls == "nul_in_source":
         # a NUL character inside a source (valid JSON, valid notebook): external text tools treat the text as binary
         lines = ["line one of %d" % r.randrange(99), "binary \x00 payload pasted here", "line three", "line four"]
